@@ -10,8 +10,12 @@ git -C /repo worktree add --detach "$wt" HEAD >/dev/null 2>&1 || { echo "worktre
 if ! git -C "$wt" apply "$patch"; then
   echo "patch does not apply"; git -C /repo worktree remove --force "$wt"; exit 2
 fi
+export VERIF_OUT="/verif/out/mut-$$"
+export VERIF_EVIDENCE="$VERIF_OUT/evidence"
+mkdir -p "$VERIF_EVIDENCE"
 VERIF_REPO="$wt" "$@"
 rc=$?
 git -C /repo worktree remove --force "$wt"
 rm -rf "$wt"
+rm -rf "$VERIF_OUT/tlc-meta" "$VERIF_OUT/traces"
 exit $rc
